@@ -4,7 +4,7 @@
 (* the transcription (T) and the property on the model (ModelOk) and exports *)
 (* every case.  One case = one distinct state.                               *)
 EXTENDS Ufunc, Json
-CONSTANTS Units, ConvUnits, UKinds0, UKinds1, UfOps, Forms, ArrFns, Fams
+CONSTANTS Units, ConvUnits, UKinds0, UKinds1, UfOps, Forms, ArrFns, Fams, SpUnits
 NoTable == [x \in {} |-> 0]
 
 VARIABLE c
@@ -16,6 +16,16 @@ UnitOk(k, n) == IF HasUnit(k) THEN n \in Units ELSE n = "nd"
 OperatorOps == {"add","subtract","remainder","divmod","multiply","divide","floor_divide","less","less_equal","greater","greater_equal","equal","not_equal"}
 InPlaceOps == {"add","subtract","remainder","multiply","divide","floor_divide"}
 ReduceOps == {"add","maximum","minimum","fmax","fmin"}
+\* special value classes are paired with plain partners only (a tiny bare operand with a quantity/array, a tiny
+\* quantity with a bare number/array or a quantity), on the units SpUnits, in the forms that reach the zero scan
+Partner(k, other) == IF k \in {"tq","tqa"} THEN other \in {"bs","ba","q"} ELSE other \in {"q","a"}
+SpecialOk(form, k0, n0, k1, n1) ==
+  /\ (k0 \in SpecialKinds => Partner(k0, k1))
+  /\ (k1 \in SpecialKinds => Partner(k1, k0))
+  /\ ((k0 \in SpecialKinds \/ k1 \in SpecialKinds) =>
+        n0 \in SpUnits \cup {"nd"} /\ n1 \in SpUnits \cup {"nd"} /\ form \in {"call","operator","iop"})
+\* special classes offered to array functions / __setitem__ (second operand only)
+ArrSpecial == {"ts","nz","ns","ta","tm"}
 UfLegal(op, form, k0, k1) ==
   /\ (k0 \in UnytKinds \/ k1 \in UnytKinds)
   /\ CASE form = "call" -> TRUE
@@ -27,7 +37,7 @@ UfLegal(op, form, k0, k1) ==
        [] form = "reduce_initial" -> op \in ReduceOps /\ k0 = "a" /\ k1 \in {"q","bs","z"}
        [] OTHER -> FALSE
 
-V1 == {"a","az","ba","bl","za","zl","lq","lqm"}
+V1 == {"a","az","ba","bl","za","zl","lq","lqm","ta","tm"}
 NoCol == AllKinds \ {"c"}
 Plain == AllKinds \ ({"c"} \cup ListQ)
 ArrLegal(op, k0, k1) ==
@@ -53,15 +63,16 @@ Next ==
   /\ c = <<>>
   /\ \/ /\ "ufunc" \in Fams
         /\ \E op \in UfOps \cap KnownOps, form \in Forms, k0 \in UKinds0, k1 \in UKinds1, n0 \in Units \cup {"nd"}, n1 \in Units \cup {"nd"} :
-             /\ UfLegal(op, form, k0, k1) /\ UnitOk(k0, n0) /\ UnitOk(k1, n1)
+             /\ UfLegal(op, form, k0, k1) /\ UnitOk(k0, n0) /\ UnitOk(k1, n1) /\ SpecialOk(form, k0, n0, k1, n1)
              /\ c' = Case("ufunc", op, form, k0, n0, k1, n1)
      \/ /\ "arrfn" \in Fams
         /\ \E op \in ArrFns \cap ArrOps, k0 \in UKinds0, k1 \in UKinds1, n0 \in Units \cup {"nd"}, n1 \in Units \cup {"nd"} :
              /\ ArrLegal(op, k0, k1) /\ UnitOk(k0, n0) /\ UnitOk(k1, n1)
+             /\ k0 \notin SpecialKinds /\ (k1 \in SpecialKinds => k1 \in ArrSpecial /\ n0 \in SpUnits \cup {"nd"})
              /\ c' = Case("arrfn", op, "call", k0, n0, k1, n1)
      \/ /\ "setitem" \in Fams
         /\ \E k1 \in UKinds1 \ {"c"}, n0 \in Units, n1 \in Units \cup {"nd"} :
-             /\ UnitOk(k1, n1)
+             /\ UnitOk(k1, n1) /\ (k1 \in SpecialKinds => k1 \in ArrSpecial \cup {"tq","tqa"} /\ n0 \in SpUnits /\ n1 \in SpUnits \cup {"nd"})
              /\ c' = Case("setitem", "setitem", IF Shape(k1) = "s" THEN "index" ELSE "slice", "a", n0, k1, n1)
      \/ /\ "conv" \in Fams
         /\ \E e \in {"to","in_units","to_value","convert_to_units"}, f \in {"obj","str"}, k0 \in {"q","a"}, n0 \in ConvUnits, n1 \in ConvUnits :
